@@ -225,8 +225,10 @@ var c09Objects = map[string]J{
 	"Dog":       {"type": "object", "required": []interface{}{"kind"}, "properties": J{"kind": J{"type": "string"}, "bark": J{"type": "boolean"}}},
 	"guard-dog": {"type": "object", "required": []interface{}{"kind"}, "properties": J{"kind": J{"type": "string"}, "level": J{"type": "integer"}}},
 	"bird_2":    {"type": "object", "required": []interface{}{"kind"}, "properties": J{"kind": J{"type": "string"}, "wings": J{"type": "integer"}, "name": J{"type": "string"}}},
+	// a name that ends in another member's name: reference matching by suffix or substring confuses the two
+	"BigCat": {"type": "object", "required": []interface{}{"kind"}, "properties": J{"kind": J{"type": "string"}, "size": J{"type": "integer"}}},
 }
-var c09GoType = map[string]string{"Cat": "Cat", "Dog": "Dog", "guard-dog": "GuardDog", "bird_2": "Bird2"}
+var c09GoType = map[string]string{"Cat": "Cat", "Dog": "Dog", "guard-dog": "GuardDog", "bird_2": "Bird2", "BigCat": "BigCat"}
 
 type c09Union struct {
 	Name     string
@@ -243,10 +245,20 @@ func c09Ref(n string) string { return "#/components/schemas/" + n }
 
 func c09GenUnion(r *Rng, idx int) c09Union {
 	u := c09Union{Name: fmt.Sprintf("U%d", idx), Keyword: r.Pick([]string{"oneOf", "anyOf"})}
-	names := []string{"Cat", "Dog", "guard-dog", "bird_2"}
+	names := []string{"Cat", "Dog", "guard-dog", "bird_2", "BigCat"}
 	n := 1 + r.Intn(4)
-	for _, i := range r.Perm(4)[:n] {
+	for _, i := range r.Perm(5)[:n] {
 		u.Refs = append(u.Refs, names[i])
+	}
+	if r.Chance(35) {
+		// the suffix-related pair together, in either order
+		u.Refs = []string{"BigCat", "Cat"}
+		if r.Bool() {
+			u.Refs = []string{"Cat", "BigCat"}
+		}
+		if r.Bool() {
+			u.Refs = append(u.Refs, "Dog")
+		}
 	}
 	if r.Chance(55) {
 		u.Disc = r.Pick([]string{"implicit", "explicit", "partial", "many"})
@@ -255,7 +267,7 @@ func c09GenUnion(r *Rng, idx int) c09Union {
 			u.Prims = append(u.Prims, []string{"string", "integer", "strings", "inlineObj"}[i])
 		}
 	}
-	keyFor := map[string]string{"Cat": "cat", "Dog": "dog", "guard-dog": "guard", "bird_2": "bird"}
+	keyFor := map[string]string{"Cat": "cat", "Dog": "dog", "guard-dog": "guard", "bird_2": "bird", "BigCat": "big"}
 	switch u.Disc {
 	case "explicit", "many":
 		for _, m := range u.Refs {
